@@ -31,11 +31,18 @@ HERE = os.path.dirname(os.path.dirname(os.path.abspath(__file__)))
 class Space:
     """A finite, indexed set of cases"""
 
-    def __init__(self, name, size, decode, note=''):
+    def __init__(self, name, size, decode, note='', decoy_every=64):
         self.name = name
         self.size = int(size)
         self.decode = decode
         self.note = note
+        # a check module may define decoy(): an unrelated run of the code
+        # under test with different parameters, executed in the same worker
+        # process before the first case of every chunk and before every
+        # decoy_every-th case, so that state kept between calls (module
+        # level caches, class attributes) is exposed ("start from
+        # non-initial states too")
+        self.decoy_every = decoy_every
 
 
 class Result:
@@ -77,8 +84,15 @@ def _worker(job):
         'outcomes': set(), 'viol': {}, 'nviol': 0, 'samples': [],
     }
     reset = getattr(module, 'reset_worker', None)
+    decoy = getattr(module, 'decoy', None)
     for i in range(lo, hi):
         case = space.decode(i)
+        if decoy and (i == lo or i % space.decoy_every == 0):
+            try:
+                decoy()
+                agg['counters']['decoy_runs'] += 1
+            except Exception:  # pylint: disable=broad-except
+                agg['counters']['decoy_runs_that_raised'] += 1
         try:
             res = module.run_case(case)
         except InternalError:
@@ -225,15 +239,11 @@ def run_check(module, tier, seed, jobs, deadline_s):
     known_hit = collections.OrderedDict()
     for sig in sorted(agg['viol'], key=lambda s: agg['viol'][s][0]):
         (_key, case, msg) = agg['viol'][sig]
-        # replay twice in this process: identical verdicts or internal error
-        r1 = module.run_case(case)
-        r2 = module.run_case(case)
-        s1 = sorted(s for s, _ in r1.viol)
-        s2 = sorted(s for s, _ in r2.viol)
-        if s1 != s2 or sig not in s1:
-            raise InternalError(
-                'non-reproducible violation %s on %s: %s vs %s'
-                % (sig, json.dumps(case, default=str)[:1000], s1, s2))
+        # replay in FRESH processes (so that nothing left behind by other
+        # cases can make or mask it): first the case alone, then preceded by
+        # one / two decoy runs.  The verdict must repeat identically under
+        # the same protocol, else it is an internal error, not a violation.
+        prelude = confirm_in_fresh_process(module, case, sig)
         matched = None
         for finding in open_findings:
             if re.search(finding['match'], sig):
@@ -246,7 +256,8 @@ def run_check(module, tier, seed, jobs, deadline_s):
         rdir = os.path.join(HERE, 'replays', module.ID)
         os.makedirs(rdir, exist_ok=True)
         blob = json.dumps({'property': module.ID, 'signature': sig,
-                           'message': msg, 'case': case}, indent=1,
+                           'message': msg, 'case': case,
+                           'prelude_decoys': prelude}, indent=1,
                           sort_keys=True, default=str)
         name = hashlib.sha1(blob.encode()).hexdigest()[:16] + '.json'
         rpath = os.path.join(rdir, name)
@@ -298,6 +309,47 @@ def run_check(module, tier, seed, jobs, deadline_s):
         'violations': new_violations,
     }
     return (1 if new_violations else 0, evidence, lines)
+
+
+def confirm_in_fresh_process(module, case, sig):
+    """Number of decoy runs after which the violation reproduces (twice) in
+    a fresh interpreter; raises InternalError if it never does"""
+    import subprocess
+    import tempfile
+    seen = []
+    with tempfile.NamedTemporaryFile('w', suffix='.json', delete=False) as f:
+        json.dump({'case': case}, f, default=str)
+        path = f.name
+    try:
+        for prelude in (0, 1, 2):
+            verdicts = []
+            for _ in range(2):
+                proc = subprocess.run(
+                    [sys.executable, '-B', '-m', 'mc.run', module.ID,
+                     '--replay', path, '--prelude', str(prelude), '--json'],
+                    stdout=subprocess.PIPE, stderr=subprocess.PIPE,
+                    text=True, cwd=HERE, timeout=3600)
+                line = [l for l in proc.stdout.split('\n')
+                        if l.startswith('REPLAY-RESULT ')]
+                if not line:
+                    raise InternalError(
+                        'replay process failed (rc %s): %s'
+                        % (proc.returncode, proc.stderr[-2000:]))
+                verdicts.append(sorted(json.loads(line[0][14:])))
+                if sig not in verdicts[-1]:
+                    break
+            seen.append((prelude, verdicts))
+            if len(verdicts) == 2 and verdicts[0] == verdicts[1] \
+                    and sig in verdicts[0]:
+                return prelude
+            if len(verdicts) == 2 and verdicts[0] != verdicts[1]:
+                break
+    finally:
+        os.unlink(path)
+    raise InternalError(
+        'violation %s on %s was observed during exploration but does not '
+        'reproduce in a fresh process (prelude, verdicts): %r'
+        % (sig, json.dumps(case, default=str)[:1000], seen))
 
 
 def write_evidence(evidence):
